@@ -29,6 +29,14 @@ Get(own, tgt, n, key) == GetF(own, tgt, n, key, Cardinality(DOMAIN tgt))
 \* setattr(n, key, v): stored on the final target
 PutOwn(own, n, key, v) == [own EXCEPT ![n] = [x \in DOMAIN own[n] \cup {key} |-> IF x = key THEN v ELSE own[n][x]]]
 Set(own, tgt, n, key, v) == PutOwn(own, Final(tgt, n), key, v)
+\* A target may refuse an assignment (a read-only property, a name outside its __slots__): modelled by the sentinel value
+\* "ro" -- such a key always reads "ro" and every write to it raises AttributeError and changes nothing, also through a link.
+Refuses(own, tgt, n, key) == LET f == Final(tgt, n) IN key \in DOMAIN own[f] /\ own[f][key] = "ro"
+\* constructor keywords in order, up to (excluding) the first one the target refuses
+RECURSIVE AcceptedKws(_, _, _, _)
+AcceptedKws(own, tgt, n, kws) == IF kws = <<>> \/ Refuses(own, tgt, n, Head(kws)[1]) THEN <<>>
+                              ELSE <<Head(kws)>> \o AcceptedKws(own, tgt, n, Tail(kws))
+
 \* constructor keywords of a link: each one is an assignment on the link (property layer = as-built after the fix: commit;
 \* the pinned code wrote them into the immediate target's own __dict__, shadowing later writes when that target is a link)
 RECURSIVE SetAll(_, _, _, _)
